@@ -59,16 +59,8 @@ theorem expandDims_wf (a : Arr α) (axes : List Int) (_ha : a.WF) {r : Arr α} (
 
 theorem squeeze_wf (a : Arr α) (axes : Option (List Int)) (_ha : a.WF) {r : Arr α} (h : a.squeeze axes = .ok r) : r.WF := by
   unfold Arr.squeeze at h
-  split at h
-  · dsimp only at h
-    split at h
-    · cases h
-    · obtain ⟨_, _, h⟩ := bind_ok_inv h
-      split at h
-      · cases h
-      · obtain ⟨_, _, h⟩ := bind_ok_inv h
-        exact reshape_wf h
-  · exact reshape_wf h
+  res_inv
+  wf_close
 
 theorem create_wf (elems : List α) (shape : List Nat) (ndmin : Option Nat) {r : Arr α}
     (h : Arr.create elems shape ndmin = .ok r) : r.WF := by
